@@ -224,6 +224,11 @@ def run_case(concepts, case, spec):
         for sub in ([], [objs[0]], [objs[-1]], rng.sample(objs, 2), [objs[len(objs) // 2]], objs[-3:]):
             call(ctx.neighbors, sub)
         return
+    objs_ = list(ctx.objects)
+    for _ in range(2):
+        sub = rng.sample(objs_, rng.randint(1, min(len(objs_), 4)))
+        call(ctx.neighbors, common.reentrant_labels(sub, ctx))     # iterating the argument queries the context
+    COL.count('reentrant_argument_collections')
     k = 0
     asked = []
     for sub in gen.subsets_of(ctx.objects, rng, all_below=8, sampled=30):
